@@ -235,14 +235,47 @@ def r11c(ctx):
                 t = e.data[0]
                 mc = method_call(t)
                 if mc and mc[1] == 'update_softmax_options':
-                    args = list(mc[2]) + [v for _, v in mc[3]]
-                    ok = all(a[0] == 'param' or a == NONE for a in args)
+                    ok, why = forwarding_ok(ctx, fn, t)
                     ctx.ob('R11c', f'{fn.cls.name}.update_softmax_options forwards to '
                            f'{short(mc[0], 40)}', ok,
-                           'options forwarded unchanged' if ok else
-                           f'options are transformed before forwarding: {short(t)}',
-                           where(fn, e.node), nontrivial=False)
+                           'every option forwarded unchanged in its own slot' if ok else
+                           f'{short(t, 120)}: {why} — the callee receives one option in place of '
+                           f'another', where(fn, e.node))
         ctx.count(f'R11c:{fn.cls.name} stores', n_stores)
+
+
+def forwarding_ok(ctx, fn: FunctionInfo, t: Term):
+    """A forwarding call ``x.update_softmax_options(a0, a1, ..., k=v)`` must bind each option
+    of the caller to the parameter of the same name of the callee.  Callee signatures are the
+    update_softmax_options implementations of the repository that accept this arity."""
+    repo = ctx.repo
+    mc = method_call(t)
+    npos, kws = len(mc[2]), mc[3]
+    sigs = []
+    for f in repo.all_functions():
+        if f.name == 'update_softmax_options' and f.cls is not None and f is not fn:
+            ps = f.params[1:]
+            if npos + len(kws) <= len(ps):
+                sigs.append((f, ps))
+    if not sigs:
+        return False, 'no callee accepts this many options'
+    problems = []
+    for f, ps in sigs:
+        bad = []
+        for i, a in enumerate(mc[2]):
+            if a == NONE:
+                continue
+            if a[0] != 'param':
+                bad.append(f'slot {ps[i]} receives {short(a, 30)}')
+            elif a[1] != ps[i]:
+                bad.append(f'slot {ps[i]} receives option {a[1]}')
+        for k, a in kws:
+            if a != NONE and (a[0] != 'param' or a[1] != k):
+                bad.append(f'slot {k} receives {short(a, 30)}')
+        if not bad:
+            return True, ''
+        problems.append(f'{f.cls.name}: ' + ', '.join(bad))
+    return False, '; '.join(problems[:2])
 
 
 def _lbl(guards) -> str:
